@@ -5,6 +5,7 @@ import (
 
 	"github.com/protolambda/zrnt/eth2/beacon/common"
 	"github.com/protolambda/zrnt/eth2/beacon/phase0"
+	"github.com/protolambda/ztyp/view"
 
 	"verifharness/internal/chain"
 	"verifharness/internal/flat"
@@ -78,6 +79,24 @@ func extraMutants(c *chain.Chain, s *chain.Step, rng *rand.Rand) []chain.Mutant 
 			return true
 		})
 	}
+	if pl := s.Block.Body().Payload; pl != nil && pl.Withdrawals != nil {
+		add("payload.withdrawals:over-limit", "limits.withdrawals", func(b *chain.SignedBlock, body chain.BodyRef) bool {
+			w := body.Payload.Withdrawals
+			for uint64(len(*w)) <= uint64(c.Spec.MAX_WITHDRAWALS_PER_PAYLOAD) {
+				*w = append(*w, common.Withdrawal{Index: common.WithdrawalIndex(len(*w))})
+			}
+			return true
+		})
+	}
+	if s.Block.Body().BlobKZGCommitments != nil {
+		add("blob_kzg_commitments:over-list-limit", "limits.blob_kzg_commitments", func(b *chain.SignedBlock, body chain.BodyRef) bool {
+			k := body.BlobKZGCommitments
+			for uint64(len(*k)) <= uint64(c.Spec.MAX_BLOB_COMMITMENTS_PER_BLOCK) {
+				*k = append(*k, common.KZGCommitment{0xc0})
+			}
+			return true
+		})
+	}
 	if s.Block.Body().Payload != nil {
 		add("payload.extra_data:over-limit", "limits.extra_data", func(b *chain.SignedBlock, body chain.BodyRef) bool {
 			*body.Payload.ExtraData = make(common.ExtraData, int(c.Spec.MAX_EXTRA_DATA_BYTES)+1)
@@ -130,12 +149,78 @@ func extraMutants(c *chain.Chain, s *chain.Step, rng *rand.Rand) []chain.Mutant 
 type stateVariant struct {
 	label, rule string
 	st          *flat.State
+	spec        *common.Spec // nil: the chain's configuration; otherwise a variant of it (constants changed)
 }
 
 // stateVariants returns modified copies of the flat pre-block state on which the step's (otherwise valid)
 // block must be refused for a reason no mutation of the block can produce.
-func stateVariants(spec *common.Spec, s *chain.Step, fs *flat.State, rng *rand.Rand) []stateVariant {
+func stateVariants(c *chain.Chain, spec *common.Spec, s *chain.Step, fs *flat.State, rng *rand.Rand) []stateVariant {
 	var out []stateVariant
+	withSpec := func(f func(sp *common.Spec)) *common.Spec {
+		sp := *spec
+		f(&sp)
+		return &sp
+	}
+	// configuration variants: the same state and block under a preset whose list limits are just reached
+	for _, op := range s.Ops {
+		if op.Kind == chain.OpDepositNew {
+			n := uint64(len(fs.Validators))
+			out = append(out, stateVariant{"config:validator-registry-limit-reached", "deposit.registry_full", fs,
+				withSpec(func(sp *common.Spec) { sp.VALIDATOR_REGISTRY_LIMIT = view.Uint64View(n) })})
+			break
+		}
+	}
+	if atts := *s.Block.Body().Attestations; fs.Fork == "phase0" && len(atts) > 0 && rng.Intn(3) == 0 {
+		// both pending-attestation lists filled up to a (small) limit MAX_ATTESTATIONS * SLOTS_PER_EPOCH: the block's
+		// first attestation no longer fits
+		spe := uint64(spec.SLOTS_PER_EPOCH)
+		k := uint64(len(fs.CurrAtts))
+		if uint64(len(fs.PrevAtts)) > k {
+			k = uint64(len(fs.PrevAtts))
+		}
+		m := (k + spe - 1) / spe
+		if b := uint64(len(atts)); b > m {
+			m = b
+		}
+		a := &atts[0]
+		bits, ok := decodeBitlist(a.AggregationBits)
+		if ok && m >= 1 {
+			tmpl := flat.PendingAtt{Bits: bits, Slot: uint64(a.Data.Slot), Index: uint64(a.Data.Index), BeaconBlockRoot: a.Data.BeaconBlockRoot,
+				Source: flat.Checkpoint{Epoch: uint64(a.Data.Source.Epoch), Root: a.Data.Source.Root},
+				Target: flat.Checkpoint{Epoch: uint64(a.Data.Target.Epoch), Root: a.Data.Target.Root}, InclusionDelay: 1, ProposerIndex: uint64(s.Proposer)}
+			g := *fs
+			g.PrevAtts = append([]flat.PendingAtt(nil), fs.PrevAtts...)
+			g.CurrAtts = append([]flat.PendingAtt(nil), fs.CurrAtts...)
+			for uint64(len(g.PrevAtts)) < m*spe {
+				g.PrevAtts = append(g.PrevAtts, tmpl)
+			}
+			for uint64(len(g.CurrAtts)) < m*spe {
+				g.CurrAtts = append(g.CurrAtts, tmpl)
+			}
+			out = append(out, stateVariant{"config+pre-state:pending-attestations-limit-reached", "attestation.pending_list_full", &g,
+				withSpec(func(sp *common.Spec) { sp.MAX_ATTESTATIONS = view.Uint64View(m) })})
+		}
+	}
+	if fs.CurrentSyncCommittee != nil && s.Block.Body().SyncAggregate != nil {
+		// a sync committee member whose key is not in the registry (its bit unset, so the signature still verifies)
+		bits := s.Block.Body().SyncAggregate.SyncCommitteeBits
+		for i := range fs.CurrentSyncCommittee.Pubkeys {
+			if i/8 < len(bits) && (bits[i/8]>>(uint(i)%8))&1 == 0 {
+				g := *fs
+				sc := *fs.CurrentSyncCommittee
+				sc.Pubkeys = append([][48]byte(nil), fs.CurrentSyncCommittee.Pubkeys...)
+				sc.Pubkeys[i] = c.Keys.Pubkey(900000 + i)
+				g.CurrentSyncCommittee = &sc
+				out = append(out, stateVariant{"pre-state:sync-committee-member-not-in-registry", "sync_aggregate.committee_pubkey_unknown", &g, nil})
+				break
+			}
+		}
+	}
+	if flat.ForkIndex(fs.Fork) >= 3 && rng.Intn(6) == 0 {
+		g := *fs
+		g.NextWithdrawalValIdx = uint64(len(fs.Validators)) + uint64(rng.Intn(3))
+		out = append(out, stateVariant{"pre-state:withdrawal-cursor-out-of-registry", "withdrawals.validator_index", &g, nil})
+	}
 	clone := func() *flat.State {
 		g := *fs
 		g.Validators = append([]flat.Validator(nil), fs.Validators...)
@@ -149,14 +234,14 @@ func stateVariants(spec *common.Spec, s *chain.Step, fs *flat.State, rng *rand.R
 		p := int(s.Proposer)
 		if p < len(g.Validators) {
 			g.Validators[p].Slashed = true
-			out = append(out, stateVariant{"pre-state:proposer-slashed", "header.proposer_slashed", g})
+			out = append(out, stateVariant{"pre-state:proposer-slashed", "header.proposer_slashed", g, nil})
 		}
 	}
 	if rng.Intn(3) == 0 {
 		// a block was already processed in this slot: latest_block_header.slot == state.slot
 		g := clone()
 		g.Header.Slot = g.Slot
-		out = append(out, stateVariant{"pre-state:latest-header-at-same-slot", "header.not_newer_than_latest", g})
+		out = append(out, stateVariant{"pre-state:latest-header-at-same-slot", "header.not_newer_than_latest", g, nil})
 	}
 	if rng.Intn(4) == 0 {
 		// the eth1 votes list is already full (cannot happen at a period boundary; the list limit must hold anyway)
@@ -165,7 +250,7 @@ func stateVariants(spec *common.Spec, s *chain.Step, fs *flat.State, rng *rand.R
 		for len(g.Eth1DataVotes) < limit {
 			g.Eth1DataVotes = append(g.Eth1DataVotes, flat.Eth1Data{DepositCount: uint64(len(g.Eth1DataVotes))})
 		}
-		out = append(out, stateVariant{"pre-state:eth1-votes-full", "eth1_data.votes_list_full", g})
+		out = append(out, stateVariant{"pre-state:eth1-votes-full", "eth1_data.votes_list_full", g, nil})
 	}
 	if rng.Intn(3) == 0 && flat.ForkIndex(fs.Fork) >= 1 {
 		// the proposer's balance is (almost) gone while it sits in the sync committee: the order in which the spec
@@ -174,7 +259,7 @@ func stateVariants(spec *common.Spec, s *chain.Step, fs *flat.State, rng *rand.R
 		p := int(s.Proposer)
 		if p < len(g.Balances) {
 			g.Balances[p] = uint64(rng.Intn(3))
-			out = append(out, stateVariant{"pre-state:proposer-balance-near-zero", "valid", g})
+			out = append(out, stateVariant{"pre-state:proposer-balance-near-zero", "valid", g, nil})
 		}
 	}
 	if n := len(*s.Block.Body().Deposits); n > 0 && uint64(n) == uint64(spec.MAX_DEPOSITS) && fs.Eth1DepositIndex > 0 {
@@ -182,17 +267,17 @@ func stateVariants(spec *common.Spec, s *chain.Step, fs *flat.State, rng *rand.R
 		// `deposit_count - eth1_deposit_index` underflows in the spec (uint64: the block is invalid)
 		g := clone()
 		g.Eth1Data.DepositCount = g.Eth1DepositIndex - 1
-		out = append(out, stateVariant{"pre-state:deposit-count-below-index", "operations.deposit_count_underflow", g})
+		out = append(out, stateVariant{"pre-state:deposit-count-below-index", "operations.deposit_count_underflow", g, nil})
 	} else if rng.Intn(6) == 0 && fs.Eth1DepositIndex > 0 {
 		g := clone()
 		g.Eth1Data.DepositCount = g.Eth1DepositIndex - 1
-		out = append(out, stateVariant{"pre-state:deposit-count-below-index", "operations.deposit_count_underflow", g})
+		out = append(out, stateVariant{"pre-state:deposit-count-below-index", "operations.deposit_count_underflow", g, nil})
 	}
 	if rng.Intn(4) == 0 && flat.ForkIndex(fs.Fork) >= 3 {
 		// the withdrawal sweep cursor elsewhere: the payload's withdrawals no longer match
 		g := clone()
 		g.NextWithdrawalValIdx = (g.NextWithdrawalValIdx + 1 + uint64(rng.Intn(len(g.Validators)-1))) % uint64(len(g.Validators))
-		out = append(out, stateVariant{"pre-state:withdrawal-cursor-moved", "withdrawals.mismatch", g})
+		out = append(out, stateVariant{"pre-state:withdrawal-cursor-moved", "withdrawals.mismatch", g, nil})
 	}
 	return out
 }
